@@ -477,6 +477,45 @@ def ob_setup_command():
     return h
 
 
+def ob_validate_dirs():
+    """the very first thing the follow-up command does - the real MesonApp.validate_dirs - on what a kill can leave in a build directory BEFORE any state file
+    exists: 0-3 of the ignore files add_ignore_files writes (the last one possibly empty), meson-private / meson-logs / meson-info created or not, coredata.dat
+    there or not. The prescribed recovery (plain `meson setup`, with --reconfigure iff the directory is configured) is never refused"""
+    def h():
+        import tempfile, shutil, argparse
+        from mesonbuild import msetup
+        tmp = tempfile.mkdtemp(prefix='c09vd')
+        try:
+            src = os.path.join(tmp, 'src'); bld = os.path.join(tmp, 'bld')
+            os.makedirs(src); os.makedirs(bld)
+            with open(os.path.join(src, 'meson.build'), 'w') as f: f.write("project('p')\n")
+            nign = choose(4, 'ignore files written')
+            for name in ['.gitignore', '.hgignore', 'CACHEDIR.TAG'][:nign]:
+                with open(os.path.join(bld, name), 'w') as f: f.write('x')
+            if nign and choose(2, 'last ignore file still empty'):
+                open(os.path.join(bld, ['.gitignore', '.hgignore', 'CACHEDIR.TAG'][nign - 1]), 'w').close()
+            priv = nign == 3 and choose(2, 'meson-private exists') == 1
+            configured = False
+            if priv:
+                os.makedirs(os.path.join(bld, 'meson-private'))
+                for dname in ('meson-logs', 'meson-info'):
+                    if choose(2, dname + ' exists'): os.makedirs(os.path.join(bld, dname))
+                configured = choose(2, 'coredata.dat exists') == 1
+                if configured: open(os.path.join(bld, 'meson-private', 'coredata.dat'), 'w').close()
+            app = object.__new__(msetup.MesonApp)
+            app.options = argparse.Namespace(builddir=bld, sourcedir=src, reconfigure=configured, wipe=False, cmd_line_options={})
+            try:
+                s, b = app.validate_dirs()
+            except (M.ME, SystemExit):
+                check(False, 'the prescribed recovery command is not refused, whatever the interrupted command left'); return
+            check(os.path.samefile(s, src) and os.path.samefile(b, bld), 'source and build directory are told apart')
+            check(all(os.path.exists(os.path.join(bld, n)) for n in ('.gitignore', '.hgignore', 'CACHEDIR.TAG')) or nign > 0, 'an empty build directory gets its ignore files')
+            cover('configured' if configured else ('partial' if nign else 'empty'))
+        finally:
+            shutil.rmtree(tmp, ignore_errors=True)
+    return h
+
+
 def obligations(tier):
     out = []
     for c in ('configure', 'reconfigure', 'first-setup'):
@@ -484,6 +523,7 @@ def obligations(tier):
                               labels=('killed', 'completed', 'loaded') + (('regenerated',) if c == 'first-setup' else ()), optional_labels=('regenerated',), max_paths=200000, path_timeout=120))
     out.append(Obligation('failed-reconfigure', ob_failed_reconfigure(), dict(earlier_successful_saves='0..3', rollback='the except-branch of MesonApp._generate, mirrored'), labels=('first-setup', 'rolled-back')))
     out.append(Obligation('setup-command', ob_setup_command(), dict(real='msetup.MesonApp._generate', recorded='Interpreter, Build, build.save, backend, cmdline.*, mintro, os.replace/unlink/path.exists', failing_stage=STAGES, first_invocation='symbolic', prev_exists='symbolic'), labels=('completed', 'failed-before-dump', 'rolled-back')))
+    out.append(Obligation('validate-dirs', ob_validate_dirs(), dict(real='msetup.MesonApp.validate_dirs / validate_core_dirs / add_ignore_files on a scratch directory', left_behind='0-3 ignore files (last possibly empty), meson-private / -logs / -info, coredata.dat', command='meson setup, --reconfigure iff configured'), labels=('empty', 'partial', 'configured')))
     out.append(Obligation('recover', ob_recover(), dict(coredata_dat='intact | absent | empty | truncated', cmd_line_txt='present | absent', leftover_temp_files='both'),
                           labels=('loaded', 'regenerated', 'unrecoverable')))
     return out
